@@ -37,14 +37,39 @@ def mk_scn(sc):
     return scn
 
 
-def monotone_renaming(rng, names):
-    """order-preserving renaming of a random subset: n -> n + suffix stays strictly between n and its successor
-    (generated names are 'nDD'; no generated name is a prefix of another)."""
+def monotone_renaming(rng, names, depth=None):
+    """order-preserving renaming of a random subset, as an ORDERED list of rename_state calls plus the overall mapping.
+    n -> n + suffix stays strictly between n and its successor (generated names are 'nDD'; none is a prefix of another);
+    a *shift* frees a name and gives it to the next state in name order: a -> a' (just below a), b -> a."""
     kind = rng.random()
-    if kind < 0.15:
-        return {n: 'q' + n for n in names}            # everything, common prefix
-    sub = [n for n in names if rng.random() < 0.5] or [rng.choice(names)]
-    return {n: n + rng.choice(['x', '_r', '0']) for n in sub}
+    if kind < 0.12:
+        steps = [(n, 'q' + n) for n in names]            # everything, common prefix
+        rng.shuffle(steps)
+        return steps, dict(steps)
+    srt = sorted(names)
+    steps = []
+    used = set()
+    if len(srt) >= 2 and kind < 0.6:
+        for _ in range(rng.choice([1, 1, 2])):
+            i = rng.randrange(len(srt) - 1)
+            a, b = srt[i], srt[i + 1]
+            if a in used or b in used or not (a[0] == 'n' and a[1:].isdigit() and int(a[1:]) > 0):
+                continue
+            if depth and depth.get(a) == depth.get(b) and rng.random() < 0.7:
+                continue                                  # prefer pairs at different depths
+            below = 'n%02dz' % (int(a[1:]) - 1)           # predecessor-or-lower < below < a
+            if below in names:
+                continue
+            steps += [(a, below), (b, a)]
+            used |= {a, b}
+    rest = [n for n in names if n not in used and rng.random() < 0.4]
+    extra = [(n, n + rng.choice(['x', '_r', '0'])) for n in rest]
+    rng.shuffle(extra)
+    steps += extra
+    if not steps:
+        n = rng.choice(names)
+        steps = [(n, n + 'x')]
+    return steps, dict(steps)
 
 
 def structure(cv, rho=None):
@@ -159,10 +184,16 @@ def main(tier, seed):
         script = [metam.random_op(rng, fail_bits=True, names=evs) for _ in range(rng.randint(8, 20))]
         stats['charts'] += 1
         # ---- (a) rename_state through the API
-        rho = monotone_renaming(rng, names)
+        order, rho = monotone_renaming(rng, names, {n: chart.depth_for(n) for n in names})
         renamed = copy.deepcopy(chart)
-        order = list(rho.items())
-        rng.shuffle(order)
+        if rng.random() < 0.6:
+            # the statechart has been in use before it is edited: queries made, an interpreter run on it
+            try:
+                warm = mk_scn(renamed)
+                warm.interp.execute_once()
+                [renamed.depth_for(n) for n in names]
+            except Exception:  # noqa
+                pass
         try:
             for old, new in order:
                 renamed.rename_state(old, new)
